@@ -228,10 +228,27 @@ def standin_conjugation(tier, seed):
                 continue
             if not np.allclose(_mat(got, qs), want, atol=1e-8):
                 fails.append(dict(args=dict(pauli=repr(p), ops=repr(ops)), failed=name, clause=f"{name} differs from conjugating the matrix"))
+        # the same for a phasor exp(i pi (e_neg P- + e_pos P+)) over the string, with and without explicitly listed identity qubits: C^dagger U C as matrices
+        # on the register (the conjugated phasor may act on fewer or more qubits; it is embedded with identities)
+        real = cirq.PauliString(d, coefficient=rng.choice([1, -1]))
+        if len(d):
+            listed = [q for q in qs if q in d or rng.random() < 0.5]
+            for ph in (cirq.PauliStringPhasor(real, exponent_neg=rng.choice([0.25, 0.5, -0.3]), exponent_pos=rng.choice([0, 0.1])),
+                       cirq.PauliStringPhasor(real, qubits=listed, exponent_neg=rng.choice([0.25, 1.0, -0.3]), exponent_pos=rng.choice([0, -0.2]))):
+                cases += 1
+                try:
+                    got = ph.conjugated_by(arg)
+                    gm = cirq.Circuit(got).unitary(qubit_order=qs, qubits_that_should_be_present=qs)
+                except Exception as ex:
+                    fails.append(dict(args=dict(phasor=repr(ph), ops=repr(ops)), failed="PauliStringPhasor.conjugated_by", clause=f"raised {ex!r}"))
+                    continue
+                pm = cirq.Circuit(ph).unitary(qubit_order=qs, qubits_that_should_be_present=qs)
+                if not np.allclose(gm, U.conj().T @ pm @ U, atol=1e-8):
+                    fails.append(dict(args=dict(phasor=repr(ph), ops=repr(ops), result=repr(got)), failed="PauliStringPhasor.conjugated_by", clause="PauliStringPhasor.conjugated_by differs from conjugating the phasor's matrix"))
         if len(fails) >= 6:
             break
     return dict(function=F + "/pauli_string.py[after/before/conjugated_by/inplace_*]", case="conjugation",
-                bound="seeded Pauli strings on 3 qubits x lists (also nested) of 1-3 Clifford operations", cases=cases, distinct=cases, failures=len(fails),
+                bound="seeded Pauli strings on 3 qubits (and phasors over them, with and without listed identity qubits) x lists (also nested) of 1-3 Clifford operations", cases=cases, distinct=cases, failures=len(fails),
                 exhaustive=False, _fails=fails[:6])
 standin_conjugation.prop = "C14"
 
